@@ -461,7 +461,9 @@ func (d *MemDir) CopyFiles(fs []File) error {
 			return err
 		}
 	}
-	sum, err := NewHashFile(fs)
+	// The sum covers the files of the directory, in their
+	// order there, and not only the files that were copied.
+	sum, err := d.Checksum()
 	if err != nil {
 		return err
 	}
